@@ -9,6 +9,7 @@ mod der;
 mod prefixlaws;
 mod reschain;
 mod rfc1982;
+mod rrdp;
 mod rtrconn;
 mod rtrwire;
 mod rtrsession;
@@ -37,6 +38,8 @@ fn main() {
         ("drive", "rtrsession") => rtrsession::drive(rest),
         ("replay", "rtrconn") => rtrconn::replay(rest),
         ("replay", "rtrwire") => rtrwire::replay(rest),
+        ("replay", "rrdp") => rrdp::replay(rest),
+        ("drive", "rrdp") => rrdp::drive(rest),
         ("drive", "rtrwire") => rtrwire::drive(rest),
         ("drive", "rtrconn") => rtrconn::drive(rest),
         ("replay", "x509time") => x509time::replay(rest),
